@@ -1052,7 +1052,7 @@ func mutateBytes(r *rng, base []byte) ([]byte, string) {
 	b := append([]byte{}, base...)
 	pos := func() int { return r.intn(len(b) + 1) }
 	ins := func(at int, x []byte) { b = append(b[:at], append(append([]byte{}, x...), b[at:]...)...) }
-	switch c := r.intn(14); c {
+	switch c := r.intn(16); c {
 	case 0:
 		k := 1 + r.intn(4)
 		for i := 0; i < k && len(b) > 0; i++ {
@@ -1133,6 +1133,17 @@ func mutateBytes(r *rng, base []byte) ([]byte, string) {
 			x[i] = byte(r.intn(256))
 		}
 		return x, "pure-random"
+	case 14, 15:
+		// the line breaks YAML knows besides LF: a lone CR, NEL, LS, PS (yaml.v3 counts each as a line), usually together
+		// with a syntax error somewhere in the text, so that messages that refer to a line have to find it
+		sep := [][]byte{{'\r'}, {0xC2, 0x85}, {0xE2, 0x80, 0xA8}, {0xE2, 0x80, 0xA9}, {'\r', '\n'}}[r.intn(5)]
+		if r.chance(2, 3) {
+			lines := strings.Split(string(b), "\n")
+			i := r.intn(len(lines))
+			lines[i] = lines[i] + r.pick([]string{": : [", " {", " ]", "\t- x", " &", " *nope", "'"})
+			b = []byte(strings.Join(lines, "\n"))
+		}
+		return []byte(strings.ReplaceAll(string(b), "\n", string(sep))), "line-break-style"
 	case 12:
 		// indentation damage: change the indent of one line
 		lines := strings.Split(string(b), "\n")
@@ -1252,6 +1263,12 @@ func fsLoopText(refs []string, defect string) string {
 		b.WriteString("  d: [kind, foreach]\n")
 	case "kind-other":
 		b.WriteString("  d:\n    kind: nosuchkind\n    workflow: never.yaml\n")
+	case "kind-case":
+		// not the loop kind: kinds are case-sensitive, this step is neither a loop for the sub-workflow discovery nor a
+		// step kind the executor knows (a.yaml exists in the shapes that use defects; in a.yaml itself it is a self reference)
+		b.WriteString("  d:\n    kind: ForEach\n    workflow: a.yaml\n    items: []\n")
+	case "kind-upper":
+		b.WriteString("  d:\n    kind: FOREACH\n    workflow: a.yaml\n    items: []\n")
 	}
 	b.WriteString("outputs:\n  success:\n    s: !expr $.steps.p.outputs.success.s\n")
 	for i := range refs {
@@ -1261,7 +1278,7 @@ func fsLoopText(refs []string, defect string) string {
 }
 
 var fsDefects = []string{"kind-seq", "kind-map", "kind-expr", "no-workflow", "workflow-seq", "workflow-map", "workflow-expr",
-	"workflow-null", "step-scalar", "step-seq", "kind-other"}
+	"workflow-null", "step-scalar", "step-seq", "kind-other", "kind-case", "kind-upper", "kind-case"}
 
 func fsLoopAbs(refs []string, defect string) fsFile {
 	f := fsFile{Valid: true}
@@ -1283,6 +1300,10 @@ func fsLoopAbs(refs []string, defect string) fsFile {
 		f.Steps = append(f.Steps, fsStep{ID: "d"})
 	case "kind-other":
 		f.Steps = append(f.Steps, fsStep{ID: "d", IsMap: true, Kind: strField("nosuchkind"), Workflow: strField("never.yaml")})
+	case "kind-case":
+		f.Steps = append(f.Steps, fsStep{ID: "d", IsMap: true, Kind: strField("ForEach"), Workflow: strField("a.yaml")})
+	case "kind-upper":
+		f.Steps = append(f.Steps, fsStep{ID: "d", IsMap: true, Kind: strField("FOREACH"), Workflow: strField("a.yaml")})
 	}
 	sort.Slice(f.Steps, func(i, j int) bool { return f.Steps[i].ID < f.Steps[j].ID })
 	return f
@@ -1333,7 +1354,7 @@ const dirPlaceholder = "<dir>"
 func genFS(r *rng, i int) *fsSpec {
 	s := &fsSpec{texts: map[string]string{}, abs: map[string]fsFile{}}
 	shapesList := []string{"leaf", "chain", "diamond", "self-root", "self-sub", "mutual2", "mutual3", "cycle-to-root", "missing", "missing-deep",
-		"invalid-sub", "invalid-root", "defect-root", "defect-sub", "subdir", "no-root", "spelling", "abs-path", "expr-panic", "random", "random", "random", "random"}
+		"invalid-sub", "invalid-root", "defect-root", "defect-sub", "kind-case-root", "kind-case-sub", "subdir", "no-root", "spelling", "abs-path", "expr-panic", "random", "random", "random", "random"}
 	s.shape = shapesList[i%len(shapesList)]
 	switch s.shape {
 	case "leaf":
@@ -1390,6 +1411,13 @@ func genFS(r *rng, i int) *fsSpec {
 	case "defect-sub":
 		s.loop(fsRoot, []string{"a.yaml"}, "")
 		s.loop("a.yaml", nil, r.pick(fsDefects))
+	case "kind-case-root":
+		s.loop(fsRoot, nil, r.pick([]string{"kind-case", "kind-upper"}))
+		s.loop("a.yaml", nil, "")
+	case "kind-case-sub":
+		// a.yaml refers to itself through a step whose kind is not (exactly) the loop kind
+		s.loop(fsRoot, []string{"a.yaml"}, "")
+		s.loop("a.yaml", nil, r.pick([]string{"kind-case", "kind-upper"}))
 	case "subdir":
 		// a reference from a file in a sub-directory is resolved against the context directory, not the file's directory
 		s.loop(fsRoot, []string{"sub/a.yaml"}, "")
